@@ -300,3 +300,15 @@ def describe_node(node):
     if s == "gen":
         return "gen:%s:%s" % (node.get("cls"), node.get("method"))
     return s
+
+
+def coq_ciq_case(rule, tol):
+    return "(MkCiq %d %d %d %s %s %s %s %s)" % (rule["Q"], rule["k"], rule["B"], flist(rule["w"]), flist(rule["sh"]),
+                                               flist(rule["W"]), flist(rule["S"]), common.flit(tol))
+
+
+def ciq_shard_src(cases):
+    return ("From mathcomp Require Import ssreflect ssrfun ssrbool eqtype ssrnat seq.\n"
+            "From Coq Require Import PrimFloat.\nRequire Import C18.Model C18.ModelBatch C18.Check.\n"
+            "Definition cases : seq ciqcase := [::\n %s].\n"
+            "Eval vm_compute in (bad_ciq cases 0).\n" % ";\n ".join(cases))
